@@ -3,7 +3,7 @@ CONSTANTS
   Q = 2
   Kinds = {"circle", "ellipse", "rect", "cann", "eann", "rann"}
   Sizes = {1, 2, 3}
-  Angles = {0, 1, 3}
+  Angles = {0, 1, 3, 4, 6}
   Subs = {1, 2}
   Emit = TRUE
   Shard = 0
